@@ -4,6 +4,7 @@ mod anyvalue;
 mod c06;
 mod c13;
 mod c14;
+mod c18;
 mod common;
 mod corpus;
 mod gen;
@@ -32,6 +33,10 @@ macro_rules! dispatch {
             }
             "C14" => {
                 let $p = c14::C14;
+                $body
+            }
+            "C18" => {
+                let $p = c18::C18;
                 $body
             }
             other => {
